@@ -77,6 +77,8 @@ var typeNames = []string{
 	"", "", "INTEGER", "INTEGER", "INTEGER", "integer", "Integer", "INT", "int", "BIGINT", "TEXT", "TEXT", "text", "VARCHAR(10)", "varchar(255)",
 	"CHAR(3)", "REAL", "real", "FLOAT", "DOUBLE", "NUMERIC", "DECIMAL(10,5)", "BLOB", "blob", "BOOLEAN", "DATETIME", "\"INTEGER\"", "[INTEGER]", "INTEGER(10)", "INTEGER(8,2)",
 	"STRING", "FLOATING POINT", "DOUBLE PRECISION", "UNSIGNED BIG INT", "INT(+5)", "NUM(-1)",
+	// one word that holds the mark of two affinities: SQLite goes by the first rule that fits (INT, then CHAR/CLOB/TEXT, then BLOB, then REAL/FLOA/DOUB)
+	"DOUBLEPOINT", "REALCHAR", "FLOATBLOB", "REALINT", "DOUBLEPOINT",
 }
 
 var collations = []string{"BINARY", "NOCASE", "RTRIM", "binary", "nocase", "rtrim", "NoCase"}
@@ -126,7 +128,14 @@ type Table struct {
 	// Strict: the STRICT table option (SQLite 3.37+), written before (1) or
 	// after (2) WITHOUT ROWID when the table has both
 	Strict int `json:",omitempty"`
+	// Sep: what separates the elements of the parenthesised list (and stands
+	// in front of the options) instead of ", ": the statement is stored as it
+	// was typed - line ends of another system, tabs, a form feed
+	Sep string `json:",omitempty"`
 }
+
+// Separators: white space to SQLite - space, tab, line feed, form feed, carriage return - around the commas
+var Separators = []string{",\r\n\t", ",\n  ", ",\f", " ,\r", ",\t\r\n", "\r\n,\r\n"}
 
 var comments = []string{"--1\n", "-- a note\n", "/* x */", "/* - 1 */", "--\n", "/**/", "/* ' */", "-- \"q\n", "/* a, b */", "--,\n",
 	// a comment that starts with /*/ runs to the next */ like any other (the
@@ -155,7 +164,14 @@ func (tb Table) SQL() string {
 	}
 	parts = append(parts, tb.Cons...)
 	parts = withComment(parts, tb.Comment, tb.CommentAt)
+	sep, gap := ", ", " "
+	if tb.Sep != "" {
+		sep, gap = tb.Sep, strings.Trim(tb.Sep, ",")
+	}
 	s := "CREATE TABLE " + tb.Ident.SQL + " (" + strings.Join(parts, ", ") + ")"
+	if tb.Sep != "" {
+		s = "CREATE TABLE " + tb.Ident.SQL + gap + "(" + gap + strings.Join(parts, sep) + gap + ")"
+	}
 	var opts []string
 	if tb.WithoutRowid {
 		opts = append(opts, "WITHOUT ROWID")
@@ -167,7 +183,7 @@ func (tb Table) SQL() string {
 		opts = append(opts, "strict")
 	}
 	if len(opts) > 0 {
-		s += " " + strings.Join(opts, ", ")
+		s += gap + strings.Join(opts, sep)
 	}
 	return s
 }
@@ -460,6 +476,9 @@ func GenTable(t *rapid.T, name Ident, o Opts) Table {
 		}
 		tb.CommentAt = rapid.IntRange(0, 8).Draw(t, "tcommentat")
 	}
+	if rapid.IntRange(0, 5).Draw(t, "sepkind") == 0 {
+		tb.Sep = rapid.SampledFrom(Separators).Draw(t, "sep")
+	}
 	return tb
 }
 
@@ -475,6 +494,8 @@ type Index struct {
 	// Comment: an SQL comment after indexed column CommentAt
 	Comment   string `json:",omitempty"`
 	CommentAt int    `json:",omitempty"`
+	// Sep: see Table.Sep
+	Sep string `json:",omitempty"`
 }
 
 func (ix Index) SQL() string {
@@ -482,7 +503,11 @@ func (ix Index) SQL() string {
 	if ix.Unique {
 		s += "UNIQUE "
 	}
-	s += "INDEX " + ix.Ident.SQL + " ON " + ix.Table.SQL + " (" + strings.Join(withComment(ix.Cols, ix.Comment, ix.CommentAt), ", ") + ")"
+	sep, gap := ", ", " "
+	if ix.Sep != "" {
+		sep, gap = ix.Sep, strings.Trim(ix.Sep, ",")
+	}
+	s += "INDEX " + ix.Ident.SQL + gap + "ON" + gap + ix.Table.SQL + gap + "(" + strings.Join(withComment(ix.Cols, ix.Comment, ix.CommentAt), sep) + ")"
 	if ix.Where != "" {
 		s += " WHERE " + ix.Where
 	}
@@ -551,6 +576,9 @@ func GenIndex(t *rapid.T, name Ident, tb Table, unique, exprs, partial bool) Ind
 			ix.Comment = rapid.SampledFrom([]string{"-- was\r COLLATE nocase DESC\n", "--\r DESC\n", "/*/ DESC /*/", "/*/ COLLATE NOCASE /*/", "-- x\r COLLATE rtrim\r\n"}).Draw(t, "icommenthiding")
 		}
 		ix.CommentAt = rapid.IntRange(0, 5).Draw(t, "icommentat")
+	}
+	if rapid.IntRange(0, 7).Draw(t, "isepkind") == 0 {
+		ix.Sep = rapid.SampledFrom(Separators).Draw(t, "isep")
 	}
 	return ix
 }
